@@ -298,9 +298,27 @@ func (r *resolver) enter(d Definition) ([]Definition, error) {
 		}
 		for _, cident := range hasCases.CaseIdents() {
 			c := hasCases.cases[cident]
+			defs := c.DataDefinitions()
+			implied := false
+			if len(defs) == 1 && defs[0].Ident() == cident {
+				_, isUses := defs[0].(*Uses)
+				implied = !isUses
+			}
 			if err := r.enterCase(hasCases, c); err != nil {
 				return nil, err
 			}
+			if implied && len(c.DataDefinitions()) == 0 {
+				// the case a node stands for when it is written directly in the choice:
+				// no node, no case (as for such a node in an augment of the choice)
+				delete(hasCases.cases, cident)
+				r.leftOutByFeature(hasCases, cident)
+			}
+		}
+		// the node that holds the choice indexed the nodes of the cases by name before
+		// their if-features were looked at: what a false if-feature took out of a case
+		// must not stay reachable by name
+		if err := reindexChoiceHolder(hasCases); err != nil {
+			return nil, err
 		}
 		return nil, nil
 	}
